@@ -3,6 +3,7 @@ import Gomacro.Drv.C17
 import Gomacro.Drv.C20
 import Gomacro.Drv.An
 import Gomacro.Drv.C09
+import Gomacro.Drv.C16
 /-! JSON-lines driver: one request object per line in, one reply per line out.
 Unknown ops are `bad-op`, never defaulted.  Core-only imports (links as an executable). -/
 open Lean Gomacro.Drv
@@ -12,7 +13,13 @@ def handlers : List (String × Handler) := [
   ("c17.root", c17Root),
   ("c20.run", c20Run),
   ("an.analyse", anAnalyse),
-  ("c09.field", c09Field)
+  ("c09.field", c09Field),
+  ("c16.words", c16Words),
+  ("c16.snake", c16Snake),
+  ("c16.constraint", c16Constraint),
+  ("c16.classify", c16Classify),
+  ("c16.one", c16One),
+  ("c16.query", c16Query)
 ]
 
 def handleLine (line : String) : String :=
